@@ -161,7 +161,7 @@ CHECKS = {
              "Both buffered and rendezvous (net.Pipe-like) connections; msize 400..1 MiB. Oracle: multiset of owed replies; every frame must match an owed reply exactly (tag, "
              "content, marker), handler invoked exactly once per dispatched request with the message sent (inbound Tread count clamp applied), duplicate-tag request gets the "
              "duplicate-tag error and no invocation, nothing extra at quiescence. Non-trivial = handlers completed out of arrival order, or a duplicate-tag step.",
-        require_classes=dict(quick=["duptag", "duptag_tflush", "out_of_order_completion", "pipelined", "rendezvous", "buffered"], thorough=[]),
+        require_classes=dict(quick=["duptag", "duptag_tflush", "err_canceled", "err_deadline", "err_wrap9p", "out_of_order_completion", "pipelined", "rendezvous", "buffered"], thorough=[]),
         assumptions=["handler results fit in msize (the property's proviso)",
                      "a tag is reused only when its state is certain (handler parked, or reply already read), which keeps the oracle exact",
                      "'no reply within 10 s although the handler returned' counts as a missing reply (normal latency is microseconds)"],
@@ -191,7 +191,7 @@ CHECKS = {
              "peer close, or context cancel. Oracle: ServeConn returns within 10 s; the context of every parked handler is cancelled; handlers return; Stop ran exactly once; "
              "afterwards the fid table (verif hook) has nothing bound or locked and every entry the mock handed out has exactly one release; a crash of the process is reported "
              "through the journal. Non-trivial = at least one handler in flight at the fault; distinct by hash of the scenario.",
-        require_classes=dict(quick=["fault_readerr", "fault_writeerr", "fault_peerclose", "fault_cancel", "client_not_reading"] + ["inflight_" + k for k in "walk clone attach open opendir create read write stat wstat clunk remove".split()],
+        require_classes=dict(quick=["fault_readerr", "fault_writeerr", "fault_peerclose", "fault_cancel", "client_not_reading", "duptag_in_flight"] + ["inflight_" + k for k in "walk clone attach open opendir create read write stat wstat clunk remove".split()],
                              thorough=[f + "×" + k for f in ("readerr", "writeerr", "peerclose", "cancel") for k in "walk clone attach open opendir create read write stat wstat clunk remove".split()]),
         assumptions=["handlers return once cancelled (the property's proviso): parked file-system calls return when their context is done, some only after Stop was entered",
                      "'within bounded time' is tested as 10 s (normal: well under a millisecond); the library's own 30 s I/O deadline never comes into play on these connections",
@@ -216,7 +216,7 @@ CHECKS = {
         pkg="client",
         race=True,
         level="fault_enumeration",
-        groups=[G("^TestC12_Hostile$", 300, 3000, shrinktime="15s")],
+        groups=[G("^TestC12_Hostile$", 300, 3000, shrinktime="15s"), G("^TestC12_ProbeD17$", 1, 1, shard=False)],
         fuzz=[],
         rule="real CSession against a misbehaving scripted server: steps call / reply (good, Rerror, wrong R type, T message) / stray reply (unknown tag, NOTAG, repeated tag) / malformed frame "
              "(length prefix 0..3, oversize, garbage, short body, type 106, empty body) / per-call cancel / fault (peer close, I/O error on both directions, session context cancel), then further calls. "
@@ -224,9 +224,10 @@ CHECKS = {
              "its caller an error; the process survives (a crash is recovered from the journal). After a stray or malformed frame the client may either carry on or give up on the session: both are accepted, "
              "but the final close must release every caller. Non-trivial = at least one call pending when the misbehaviour happens.",
         require_classes=dict(quick=["wrong_type_reply", "t_message_as_reply", "stray_unknown", "stray_notag", "stray_repeat", "malformed_badprefix", "malformed_oversize", "malformed_garbage",
-                                    "malformed_shortbody", "malformed_type106", "per_call_cancel", "fault_close", "fault_ioerr", "fault_neterr", "fault_localclose", "fault_ctxcancel", "late_reply_to_cancelled_call", "fault_with_pending_calls", "call_after_failure"], thorough=[]),
+                                    "malformed_shortbody", "malformed_type106", "per_call_cancel", "fault_close", "fault_ioerr", "fault_neterr", "fault_localclose", "fault_ctxcancel", "late_reply_to_cancelled_call", "fault_with_pending_calls", "call_after_failure", "d17_probe", "own_deadline_expired", "own_deadline_short", "own_deadline_long_on_honouring_conn"], thorough=[]),
         assumptions=["'the connection fails' is modelled as both directions failing; a connection that fails only for writes while reads keep working is not asserted",
-                     "connection deadlines are not honoured by the buffered in-memory connection, so the library's 30 s default deadline never masks a hang"],
+                     "connection deadlines are not honoured by the buffered in-memory connection, so the library's 30 s default deadline never masks a hang",
+                     "known finding D17: a call's own context *deadline* (as opposed to cancellation) is also applied to the shared connection's write; if it expires mid-write the session is poisoned for every later call. Per-call cancellation in the generated scripts therefore uses cancel, and a separate probe reports D17"],
     ),
     "C09": dict(
         pkg="stack",
@@ -239,7 +240,7 @@ CHECKS = {
              "Oracle: S received exactly the caller's arguments and the caller exactly S's results up to the documented limits (read/write clipped to msize-11/msize-23, ErrShortWrite, whole-second "
              "times, >16 names refused locally, 0-byte read may surface as io.EOF, errors by text). Concurrent: 2..4 (rendezvous) / 2..32 (buffered) callers x 1..12 calls whose results derive from the "
              "fid; each caller must get its own result and some call must complete at least every 5 s until all have. Non-trivial = a call with non-zero fid whose S-side result is a success; distinct by case hash.",
-        require_classes=dict(quick=["m_" + m for m in "auth attach clunk remove walk read write open create stat wstat".split()] + ["clipped_to_msize", "session_error", "conc_rendezvous", "conc_buffered", "d14_probe"], thorough=[]),
+        require_classes=dict(quick=["m_" + m for m in "auth attach clunk remove walk read write open create stat wstat".split()] + ["clipped_to_msize", "session_error", "error_with_partial_count", "conc_with_abandoned_calls", "conc_rendezvous", "conc_buffered", "d14_probe"], thorough=[]),
         assumptions=["arguments are generated so that every request and reply other than read/write data fits in msize (messages that do not fit are C02's business)",
                      "known finding D14: >= 5 concurrent callers over a zero-buffer connection wedge; the generator stays below that on rendezvous connections and a separate probe (16 callers x 100 calls) reports it"],
     ),
@@ -261,7 +262,7 @@ CHECKS = {
         pkg="ramfsx",
         race=True,
         level="exploration",
-        groups=[G("^TestC18_Seq$", 800, 50000), G("^TestC18_Conc$", 50, 2000, shrinktime="5s")],
+        groups=[G("^TestC18_Seq$", 800, 50000), G("^TestC18_Conc$", 50, 2000, shrinktime="5s"), G("^TestC18_Race$", 30, 600, shrinktime="5s")],
         rule="histories of up to 50 (thorough 100) operations by 1..3 SFileSys sessions on one fresh ramfs instance (verif hook): attach, walk (incl. '..', missing, non-normal names, "
              "through removed directories), clone, create file/dir, open, read, write, truncate (wstat length), stat, clunk, remove, list; offsets over the whole int64 range "
              "(dense at 0, len-1, len, len+1, 2^31, 2^63-1, -1, -2^63), counts 0..64 KiB; a third of the histories start with a canned prelude (parameters generated) that creates a stale handle "
@@ -269,7 +270,7 @@ CHECKS = {
              "the model's bytes, listings (as sets) exactly the live children plus '..', walks and qids as in the model, no call may panic; after clunking every fid the validator requires "
              "nref == parent links for every node. Concurrent variant: one goroutine per session, race detector, no panic, final validator. "
              "Non-trivial = a write not at offset 0, a '..' walk or a walk from a removed node, or two sessions touching one node.",
-        require_classes=dict(quick=["write_at_nonzero_offset", "dotdot_walk", "walk_from_removed_node", "node_shared_by_sessions", "remove_stale_handle", "huge_offset"], thorough=[]),
+        require_classes=dict(quick=["write_at_nonzero_offset", "dotdot_walk", "walk_from_removed_node", "node_shared_by_sessions", "remove_stale_handle", "huge_offset", "create_race", "concurrent_sessions"], thorough=[]),
         assumptions=["a read at an offset beyond the end (incl. offsets >= 2^63) must deliver zero bytes; whether an error accompanies it is not asserted",
                      "'..' at the root is rejected (the library's documented path rule)",
                      "I/O through a fid that was walked in place while open is not asserted (the property text does not determine its meaning), only that nothing panics",
